@@ -9,6 +9,8 @@
 //!        and evaluate the property oracles on the implementation.
 //!   c10 random <n> <max_ops> <out.trace> <out.json>   seeded random longer schedules
 //!   c10 corpus <file> <out.trace> <out.json>          schedules from a file
+//!   c10 editor <out.trace> <out.json>   the same overlap driven through the C API:
+//!        chewing_userphrase_add / a key event (reopen+flush) / chewing_delete
 //!   c10 run <tokens...>          run one schedule, print its trace line
 //!   c10 replay <name|tokens...>  run one schedule with the oracles; exit 1 when one fails
 //!   c10 crash-child <dir> <tokens...>   (internal) execute the prefix, then abort()
@@ -889,6 +891,194 @@ fn corpus(file: &str, out: &str, json: &str) -> i32 {
     0
 }
 
+// ---------------------------------------------------------------- the editor / C API flow
+
+struct SendPtr(*mut chewing_capi::setup::ChewingContext);
+unsafe impl Send for SendPtr {}
+
+fn disk_phrases(path: &Path) -> Option<std::collections::BTreeSet<String>> {
+    let bytes = std::fs::read(path).ok()?;
+    if !der_envelope_ok(&bytes) {
+        return None;
+    }
+    let trie = Trie::open(path).ok()?;
+    Some(trie.entries().map(|(_, p)| p.as_str().to_string()).collect())
+}
+
+/// release the parked writer and wait until it is parked again or done; false if none was parked
+fn ctl_writer_step() -> bool {
+    let r = with_ctl(|c| {
+        if c.parked.is_some() {
+            c.parked = None;
+            c.release = true;
+            Some(c.writer_done)
+        } else {
+            None
+        }
+    });
+    CV.notify_all();
+    match r {
+        None => false,
+        Some(done0) => {
+            wait_for(|c| c.parked.is_some() || c.writer_done > done0);
+            if with_ctl(|c| c.writer_done > done0) {
+                // let the thread's is_finished() become true before the foreground looks at it
+                std::thread::sleep(Duration::from_millis(2));
+            }
+            true
+        }
+    }
+}
+
+/// process_keyevent calls reopen()+flush() after every key that changed the dictionary and
+/// chewing_delete drops the editor: the same schedules, driven through the C API.
+///   add A; key (flush: writer 1 parked); k1 writer steps; add B; [key]; k2 writer steps;
+///   chewing_delete; the writer(s) run to completion.  Afterwards both phrases must be in
+///   the file; at every step the file must load.
+fn editor(out: &str, json: &str) -> i32 {
+    use chewing_capi::input::chewing_handle_Esc;
+    use chewing_capi::setup::{chewing_delete, chewing_new2};
+    use chewing_capi::userphrase::chewing_userphrase_add;
+    use std::ffi::CString;
+    let base = work_base();
+    let mut st = Stats::default();
+    let t0 = Instant::now();
+    let sys = CString::new("/repo/tests/data").unwrap();
+    let reading = CString::new("ㄘㄜˋ ㄕˋ").unwrap();
+    let (pa, pb) = ("策試", "策士");
+    let (ca, cb) = (CString::new(pa).unwrap(), CString::new(pb).unwrap());
+    let mut lines = vec![];
+    for second_key in [false, true] {
+        for k1 in 0..=6usize {
+            for k2 in 0..=(6 - k1) {
+                let dir = fresh_dir(&base, "ed");
+                let path = dir.join("chewing.dat");
+                let cpath = CString::new(path.display().to_string()).unwrap();
+                let run_id = RUN_ID.fetch_add(1, std::sync::atomic::Ordering::SeqCst) + 1;
+                *CTL.lock().unwrap() = Some(Ctl { run_id, ..Ctl::default() });
+                CV.notify_all();
+                *WATCH.lock().unwrap() = Some(path.clone());
+                let sched = format!("editor:addA key W{} addB {}W{} delete", k1, if second_key { "key " } else { "" }, k2);
+                let mut fails: Vec<Failure> = vec![];
+                let mut loadable = |what: &str, fails: &mut Vec<Failure>| {
+                    if disk_phrases(&path).is_none() {
+                        fails.push(Failure { oracle: "not-loadable", detail: format!("the user dictionary file does not load after {}", what) });
+                    }
+                };
+                let mut spawned = false;
+                let ctx = unsafe { chewing_new2(sys.as_ptr(), cpath.as_ptr(), None, std::ptr::null_mut()) };
+                if ctx.is_null() {
+                    st.fails.push((sched.clone(), Failure { oracle: "editor-setup", detail: "chewing_new2 returned NULL".into() }));
+                    break;
+                }
+                unsafe {
+                    chewing_userphrase_add(ctx, ca.as_ptr(), reading.as_ptr());
+                    chewing_handle_Esc(ctx);
+                }
+                if wait_for_short(|c| c.parked.is_some()) {
+                    spawned = true;
+                }
+                loadable("the first flush", &mut fails);
+                for _ in 0..k1 {
+                    ctl_writer_step();
+                    loadable("a writer step", &mut fails);
+                }
+                unsafe {
+                    chewing_userphrase_add(ctx, cb.as_ptr(), reading.as_ptr());
+                    if second_key {
+                        chewing_handle_Esc(ctx);
+                    }
+                }
+                if !with_ctl(|c| c.parked.is_some()) && second_key {
+                    // the first writer had finished: this key's flush may have spawned the next one
+                    wait_for_short(|c| c.parked.is_some());
+                }
+                for _ in 0..k2 {
+                    ctl_writer_step();
+                    loadable("a writer step", &mut fails);
+                }
+                let p = SendPtr(ctx);
+                let h = std::thread::Builder::new()
+                    .name("drop".into())
+                    .spawn(move || {
+                        ROLE.with(|r| r.set(2));
+                        let p = p;
+                        unsafe { chewing_delete(p.0) };
+                        with_ctl(|c| c.drop_done = true);
+                        CV.notify_all();
+                    })
+                    .unwrap();
+                let t1 = Instant::now();
+                let mut closed_checked = false;
+                loop {
+                    wait_for_short(|c| c.drop_done || (c.joins_started > c.joins_done && c.parked.is_some()));
+                    if with_ctl(|c| c.drop_done) {
+                        // chewing_delete returned: both phrases must be in the file now
+                        let got = disk_phrases(&path);
+                        closed_checked = true;
+                        let ok = got.as_ref().map(|g| g.contains(pa) && g.contains(pb)).unwrap_or(false);
+                        if !ok {
+                            fails.push(Failure {
+                                oracle: "lost-after-close",
+                                detail: format!("chewing_delete returned; user dictionary file holds {:?}, expected both {} and {}", got, pa, pb),
+                            });
+                        }
+                        break;
+                    }
+                    if !ctl_writer_step() && t1.elapsed() > WAIT {
+                        fails.push(Failure { oracle: "hang", detail: "chewing_delete does not return".into() });
+                        break;
+                    }
+                    loadable("a writer step during chewing_delete", &mut fails);
+                }
+                // let a writer that outlived the context (possible only without the join) finish
+                let t2 = Instant::now();
+                while (ctl_writer_step() || with_ctl(|c| c.writer_started > c.writer_done)) && t2.elapsed() < WAIT {}
+                if h.is_finished() {
+                    let _ = h.join();
+                }
+                *WATCH.lock().unwrap() = None;
+                let _ = std::fs::remove_dir_all(&dir);
+                for (k, v) in with_ctl(|c| std::mem::take(&mut c.points_seen)) {
+                    *st.points.entry(k).or_insert(0) += v;
+                }
+                st.leaves += 1;
+                if spawned {
+                    st.with_writer += 1;
+                    st.lost_overlap += 1;
+                }
+                lines.push(format!("{} | spawned={} closed_checked={} failures={}", sched, spawned as u8, closed_checked as u8, fails.len()));
+                for f in fails {
+                    st.fails.push((sched.clone(), f));
+                }
+            }
+        }
+    }
+    st.samples = lines.iter().take(3).cloned().collect();
+    std::fs::write(out, "").unwrap();
+    std::fs::write(format!("{}.editor.txt", out), lines.join("\n")).unwrap();
+    let _ = std::fs::remove_dir_all(&base);
+    st.write_json(json, t0);
+    for (s, f) in st.fails.iter().take(5) {
+        println!("ORACLE {} : {} : {}", f.oracle, s, f.detail);
+    }
+    st.fails.len() as i32
+}
+
+fn wait_for_short(cond: impl Fn(&Ctl) -> bool) -> bool {
+    let t0 = Instant::now();
+    let mut g = CTL.lock().unwrap();
+    loop {
+        if cond(g.as_ref().unwrap()) {
+            return true;
+        }
+        if t0.elapsed() > Duration::from_millis(1500) {
+            return false;
+        }
+        g = CV.wait_timeout(g, Duration::from_millis(50)).unwrap().0;
+    }
+}
+
 fn parse_tokens(args: &[String]) -> Vec<char> {
     args.iter().flat_map(|a| a.chars()).filter(|c| !c.is_whitespace()).collect()
 }
@@ -913,6 +1103,18 @@ fn main() {
         }
         Some("random") => random(args[1].parse().unwrap(), args[2].parse().unwrap(), &args[3], &args[4]),
         Some("corpus") => corpus(&args[1], &args[2], &args[3]),
+        Some("editor") => {
+            editor(&args[1], &args[2]);
+            0
+        }
+        Some("replay") if args.get(1).map(|a| a.starts_with("editor:")).unwrap_or(false) => {
+            // the C API campaign is half a second: replay all of it
+            let base = work_base();
+            let n = editor(&format!("{}/ed.trace", base.display()), &format!("{}/ed.json", base.display()));
+            let _ = std::fs::remove_dir_all(&base);
+            println!("editor campaign: {} oracle failures", n);
+            if n > 0 { 1 } else { 0 }
+        }
         Some("crash-child") => crash_child(Path::new(&args[1]), &parse_tokens(&args[2..])),
         Some("run") | Some("replay") => {
             let toks: Vec<char> = match named(args.get(1).map(|s| s.as_str()).unwrap_or("")) {
